@@ -223,7 +223,8 @@ fn run<S: Subject + Hash + Ord>(c: &Case, name: &str, obs: &mut Obs) -> Verdict 
         }
     }
     // complement of the complement, union with the empty digraph: same abstract digraph
-    if let Some(cc) = a.complemented().and_then(|x| x.complemented()) {
+    // (quadratic in the order: skipped on the huge leg)
+    if let Some(cc) = (n <= 200).then(|| a.complemented().and_then(|x| x.complemented())).flatten() {
         ensure!(cc == a && hash_of(&cc) == hash_of(&a) && cc.cmp(&a) == Ordering::Equal, "{name}: complement().complement() is not equal to the original:\n   a  = {a:?}\n   cc = {cc:?}");
         let comp = a.complemented().unwrap();
         let mut mc: M = Model::contiguous(n);
@@ -347,17 +348,49 @@ impl Prop for C20 {
     const ASSUMPTIONS: &'static [&'static str] = &["DefaultHasher is the hash observer"];
 
     fn legs(tier: Tier) -> Vec<Leg> {
-        vec![Leg {
-            name: "random",
-            kind: LegKind::Random {
-                cases: tier.pick(15000, 120000),
+        vec![
+            Leg {
+                name: "random",
+                kind: LegKind::Random {
+                    cases: tier.pick(15000, 120000),
+                },
+                workers: 16,
+                build: Build::Normal,
             },
-            workers: 16,
-            build: Build::Normal,
-        }]
+            Leg {
+                name: "huge",
+                kind: LegKind::Random {
+                    cases: tier.pick(4, 40),
+                },
+                workers: 16,
+                build: Build::Normal,
+            },
+        ]
     }
 
-    fn strategy(_leg: &str, tier: Tier) -> BoxedStrategy<Case> {
+    fn strategy(leg: &str, tier: Tier) -> BoxedStrategy<Case> {
+        if leg == "huge" {
+            // clone / == / hash on digraphs of 200..3100 vertices (two histories, no noise)
+            return (0..6_u8, gen::huge_dg(), prop_oneof![Just(0_u8), Just(1), Just(5)], prop_oneof![Just(0_u8), Just(1), Just(3)], any::<bool>(), any::<u16>(), any::<u16>())
+                .prop_map(|(repr, (g, _), sa, sb, mutate_clone, mu, mv)| {
+                    let n = g.order;
+                    let arcs: Vec<(usize, usize, i64)> = g.arcs.iter().map(|&(u, v)| (u, v, ((u + v) % 9) as i64)).collect();
+                    let (u, v) = gen::arc_of((mu, mv), n);
+                    Case {
+                        repr,
+                        order: n,
+                        arcs,
+                        style_a: sa,
+                        style_b: sb,
+                        noise: vec![],
+                        diff: 0,
+                        diff_pick: (0, 0),
+                        mutation: Op::Add(n - 1 - (u % 3), v, 1),
+                        mutate_clone,
+                    }
+                })
+                .boxed();
+        }
         let max = tier.pick(20, 64);
         (
             0..6_u8,
